@@ -110,3 +110,12 @@ func VerifSelectNgrams(pattern string, frequencies []uint32) (first, last int, g
 		orig[f.index].ngram == f.ngram && orig[l.index].ngram == l.ngram
 	return f.index, l.index, genuine
 }
+
+// VerifCaseNgrams runs generateCaseNgrams on the trigram (r0, r1, r2) and returns the variants in order.
+func VerifCaseNgrams(r0, r1, r2 rune) [][3]rune {
+	var out [][3]rune
+	for _, v := range generateCaseNgrams(runesToNGram([3]rune{r0, r1, r2})) {
+		out = append(out, ngramToRunes(v))
+	}
+	return out
+}
